@@ -267,7 +267,7 @@ theorem C04_snapshot_add (c : Cfg) (gid : Nat) (gr : Group) (hg : c.groups[gid]?
 
 /-! ### non-vacuity -/
 def demo : List Op :=
-  [ .pre ⟨1, some ("/old".toList, "/g/x".toList)⟩, .use 2,
+  [ .pre ⟨1, some ("/old".toList, "/g/x".toList), none, none⟩, .use 2,
     .group none "/g".toList [3], .add (some 0) "GET".toList "/x".toList 7 false [4],
     .groupUse 0 [5] ]
 
@@ -278,4 +278,38 @@ example : serve (run demo) [] "GET".toList "/g/missing".toList
     = [.enter 1, .enter 2, .enter 3, .enter 5, .rtr 404,
        .leave 5 true, .leave 3 true, .leave 2 true, .leave 1 true] := by decide
 
+end C04
+
+namespace C04
+open Router
+/-- **C04_pre_sees_method_and_host** — the trace of a request whose Pre chain rewrites the method or the
+    Host is the onion around the route selected for the *rewritten* host, method and path: every theorem
+    about `serve` applies to `serveRq` at the values the Pre chain leaves behind. -/
+theorem C04_pre_sees_method_and_host (c : Cfg) (host method path : Str) :
+    serveRq c host method path =
+      serve c (hostAfterPre c.pre host) (methodAfterPre c.pre method) path := rfl
+
+/-- without method/Host rules nothing changes -/
+theorem serveRq_plain (c : Cfg) (host method path : Str)
+    (h : ∀ m ∈ c.pre, m.rwM = none ∧ m.rwH = none) : serveRq c host method path = serve c host method path := by
+  have hm : ∀ (ms : List MwSpec) (x : Str), (∀ m ∈ ms, m.rwM = none ∧ m.rwH = none) →
+      methodAfterPre ms x = x ∧ hostAfterPre ms x = x := by
+    intro ms
+    induction ms with
+    | nil => intro x _; exact ⟨rfl, rfl⟩
+    | cons m ms ih =>
+      intro x hx
+      have h1 := hx m (by simp)
+      have h2 := ih x (fun m' hm' => hx m' (List.mem_cons_of_mem _ hm'))
+      simp only [methodAfterPre, hostAfterPre, List.foldl_cons, rwField, h1.1, h1.2]
+      exact h2
+  unfold serveRq
+  rw [(hm c.pre method h).1, (hm c.pre host h).2]
+
+/-- a method-override Pre middleware makes the POST route answer a request that arrived as GET -/
+def demoOverride : List Op :=
+  [ .pre ⟨1, none, some ("GET".toList, "POST".toList), none⟩,
+    .add none "POST".toList "/x".toList 7 false [], .add none "GET".toList "/x".toList 8 false [] ]
+example : serveRq (run demoOverride) [] "GET".toList "/x".toList
+    = [.enter 1, .hnd 7, .leave 1 false] := by decide +kernel
 end C04
